@@ -112,7 +112,26 @@ pub struct GenParams {
     /// contract 1 is the hand-written "refunder": it sends the value it received straight back to
     /// its caller (a delegated account can debit and be credited back within one transaction)
     pub refunder_contract: bool,
+    /// contract 0 is a factory that CREATE2-deploys (salt 0) a hand-written hot-slot child whose
+    /// constructor writes storage; most transactions call the child directly: store / copy
+    /// (value flows from a loaded slot into another slot) / return a slot / zero a slot or
+    /// self-destruct. In half of the cases the child already exists in the pre-state with non-zero
+    /// storage, so a pre-Cancun destroy + re-create masks backing storage. Reads of the child's
+    /// slots therefore resolve against a storage-reset marker published inside the block.
+    pub reborn_contract: bool,
 }
+
+pub const CREATE2_SPECS: &[SpecId] = &[
+    SpecId::PETERSBURG,
+    SpecId::ISTANBUL,
+    SpecId::BERLIN,
+    SpecId::LONDON,
+    SpecId::MERGE,
+    SpecId::SHANGHAI,
+    SpecId::CANCUN,
+    SpecId::PRAGUE,
+    SpecId::OSAKA,
+];
 
 impl Default for GenParams {
     fn default() -> Self {
@@ -140,8 +159,50 @@ impl Default for GenParams {
             pointer_contract: false,
             destroy_flip_contract: false,
             refunder_contract: false,
+            reborn_contract: false,
         }
     }
+}
+
+/// Runtime of the "reborn" child (see `GenParams::reborn_contract`).
+fn reborn_child_runtime() -> Vec<Stmt> {
+    use progs::Arith::{Add, Eq};
+    vec![
+        Stmt::ModK(5, 0, 4), // mode
+        // mode 0: SSTORE(r1 mod 4, r2)
+        Stmt::Const(6, 0),
+        Stmt::Arith(6, 5, 6, Eq),
+        Stmt::IfZeroSkip(6, 1),
+        Stmt::SStore(1, 4, 2),
+        // mode 1: slot[4 + r2 mod 4] = SLOAD(r1 mod 4) + 1
+        Stmt::Const(6, 1),
+        Stmt::Arith(6, 5, 6, Eq),
+        Stmt::IfZeroSkip(6, 7),
+        Stmt::SLoad(3, 1, 4),
+        Stmt::Const(7, 1),
+        Stmt::Arith(3, 3, 7, Add),
+        Stmt::ModK(7, 2, 4),
+        Stmt::Const(4, 4),
+        Stmt::Arith(7, 7, 4, Add),
+        Stmt::SStore(7, 16, 3),
+        // mode 2: return SLOAD(r1 mod 4)
+        Stmt::Const(6, 2),
+        Stmt::Arith(6, 5, 6, Eq),
+        Stmt::IfZeroSkip(6, 2),
+        Stmt::SLoad(3, 1, 4),
+        Stmt::Return(3),
+        // mode 3: r3 mod 3 == 0 ? selfdestruct(caller) : SSTORE(r1 mod 4, 0)
+        Stmt::Const(6, 3),
+        Stmt::Arith(6, 5, 6, Eq),
+        Stmt::IfZeroSkip(6, 6),
+        Stmt::ModK(7, 3, 3),
+        Stmt::IfNonZeroSkip(7, 2),
+        Stmt::Caller(7),
+        Stmt::SelfDestructRaw(7),
+        Stmt::Const(7, 0),
+        Stmt::SStore(1, 4, 7),
+        Stmt::Stop,
+    ]
 }
 
 /// Layout of the address table of one case.
@@ -491,6 +552,22 @@ pub fn generate(p: &GenParams, seed: u64) -> Case {
                 Stmt::Return(3),
             ];
         }
+        if p.reborn_contract && i == 0 {
+            // constructor: two non-zero slot writes that depend on the creating call's data
+            let ctor = vec![
+                Stmt::Const(5, 1),
+                Stmt::Arith(5, 1, 5, progs::Arith::Add),
+                Stmt::SStore(2, 4, 5),
+                Stmt::Const(5, 9),
+                Stmt::SStore(3, 4, 5),
+            ];
+            prog.inits = vec![InitBlob { ctor, runtime: reborn_child_runtime() }];
+            prog.stmts = vec![
+                Stmt::Const(4, 0),
+                Stmt::Create { two: true, init: 0, v: 4, vmax: 1, s: 4, d: 5 },
+                Stmt::Return(5),
+            ];
+        }
         let code = progs::compile(&prog);
         let addr = layout.con(i);
         let mut storage = BTreeMap::new();
@@ -515,6 +592,18 @@ pub fn generate(p: &GenParams, seed: u64) -> Case {
                 storage,
             },
         );
+        if p.reborn_contract && i == 0 && r.chance(1, 2) {
+            // the child already lives at its CREATE2 address, with storage in the backing store
+            let child = create2_addrs[0];
+            let runtime = progs::compile(&Program { stmts: reborn_child_runtime(), inits: vec![], table: layout.table });
+            let mut st = BTreeMap::new();
+            for sl in 0..8u64 {
+                if r.chance(2, 3) {
+                    st.insert(U256::from(sl), U256::from(r.range(1, 7)));
+                }
+            }
+            accounts.insert(child, AccountSeed { balance: U256::from(r.below(50)), nonce: 1, code: Some(runtime), storage: st });
+        }
         programs.insert(addr, prog);
     }
 
@@ -610,6 +699,12 @@ pub fn generate(p: &GenParams, seed: u64) -> Case {
                 tx.kind = TxKind::Call(to);
                 tx.value = U256::from(r.below(3));
             }
+        }
+        if p.reborn_contract {
+            // mostly the child (whether or not it exists yet), sometimes the factory
+            tx.kind = TxKind::Call(if r.chance(1, 6) { layout.con(0) } else { create2_addrs[0] });
+            tx.value = U256::ZERO;
+            tx.data = calldata(&[r.below(8), r.below(8), r.below(8), r.below(9)]);
         }
         if r.chance(p.low_gas_pct, 100) {
             tx.gas_limit = r.range(21_000, 60_000);
